@@ -177,10 +177,12 @@ def gen_reval(rng, k):
             if rng.random() < 0.5:
                 fresh.append([randcase(rng, "X-Foo"), "f1"])
                 if rng.random() < 0.3: fresh.append([randcase(rng, "X-Foo"), "f2"])
-            if rng.random() < 0.3:
-                fresh.append([randcase(rng, "X-New"), "n1"])
-                if rng.random() < 0.35:   # nominated by the 304's own Connection field: must not be merged
-                    fresh.append(["Connection", randcase(rng, "x-new") + rng.choice(["", ", x-unrelated"])])
+            if rng.random() < 0.3: fresh.append([randcase(rng, "X-New"), "n1"])
+            if rng.random() < 0.25:
+                # the 304's own Connection field nominates extension fields (of the 304 and/or of the stored reply):
+                # hop-by-hop for the 304's connection only - not merged, and stored fields of that name stay
+                names = rng.sample(["x-foo", "x-new", "x-bar"], rng.choice([1, 1, 2]))
+                fresh.append(["Connection", rng.choice([", ", " , ", ","]).join([randcase(rng, n) for n in names] + ["x-unrelated"])])
             if rng.random() < 0.1: fresh.append(["Keep-Alive", "timeout=5"])
             if rng.random() < 0.2: fresh.append(["Content-Language", "de"])
             if rng.random() < 0.2: fresh.append(["Expires", "@7200"])
